@@ -1,4 +1,4 @@
-From V Require Import Common.Base Common.Utf8 C07.LineCol C07.Builder C07.Vlq C07.SpecMap C07.Mappings C07.MappingsProofs C07.FindProofs C07.JoinProofs C07.SpecBuilder C07.LineColProofs C07.JoinAll C07.JoinAllProofs C07.Pipeline C07.Shift C07.ShiftProofs C07.BuilderIn C07.BuilderInProofs.
+From V Require Import Common.Base Common.Utf8 C07.LineCol C07.Builder C07.Vlq C07.SpecMap C07.Mappings C07.MappingsProofs C07.FindProofs C07.JoinProofs C07.SpecBuilder C07.LineColProofs C07.JoinAll C07.JoinAllProofs C07.Pipeline C07.Shift C07.ShiftProofs C07.BuilderIn C07.BuilderInProofs C07.AdvConcat.
 (* non-vacuity / sanity: concrete values *)
 Example enc_ex : map encodeVLQ [0; 1; -1; 15; 16; -16; 123456] =
   [[65]; [67]; [68]; [101]; [103; 66]; [104; 66]; [103; 107; 120; 72]].
@@ -98,4 +98,21 @@ Proof.
   split; [repeat constructor|].
   split; [repeat (apply Forall_cons; [right; vm_compute; auto 10|]); apply Forall_nil|].
   vm_compute. reflexivity.
+Qed.
+(* clean cuts: "a CR LF" | "é b" is clean (the CRLF is inside the first portion),
+   and a whole run with CRLF and a two-byte character inside portions is clean *)
+Example clean_cut_ex : clean_cut [97; 13; 10] [195; 169; 98].
+Proof.
+  split; [right; vm_compute; auto 10|]. intros a' _. reflexivity.
+Qed.
+Example clean_run_ex :
+  clean_run sw0 [] [(0, 0, [97; 13; 10]); (3, 1, [195; 169; 32])] [98; 13].
+Proof.
+  cbn [clean_run sw0 w_len w_pend w_ploc w_plen w_pname length app].
+  replace ((0 =? -1) && _) with false by reflexivity.
+  split.
+  - split; [right; vm_compute; auto 10|]. intros a' E. destruct a'; discriminate.
+  - replace ((3 =? 0) && _) with false by reflexivity. split.
+    + split; [right; vm_compute; auto 10|]. intros a' _. reflexivity.
+    + cbn [clean_run app w_pend]. split; [right; vm_compute; auto 10|]. intros a' _. reflexivity.
 Qed.
